@@ -366,6 +366,9 @@ func runChild(prop, tier, only, resultPath string, seed int) {
 		}
 	}
 	e.paths = len(outs)
+	if os.Getenv("VERIF_PROGRESS") != "" {
+		fmt.Fprintf(os.Stderr, "  [%s] symbolic execution done: %d paths, %d obligations, %d feasibility queries, %.1fs\n", only, len(outs), len(e.obligs), e.feasQ, time.Since(t0).Seconds())
+	}
 	res.Paths, res.Forks, res.Merges, res.FeasQ = e.paths, e.forks, e.merges, e.feasQ
 	res.Funcs = sortedKeys(e.funcsSeen)
 	res.Stubs = sortedKeys(e.stubsUsed)
